@@ -292,17 +292,32 @@ def o_diff(case):
     items = case["items"]
     data = streams.join(items)
     ref = [(raw, pub(p)) for raw, p in RTCMReader(io.BytesIO(data), quitonerror=case["qoe"], labelmsm=case["labelmsm"])]
-    sock = ScriptedSocket(streams.split(data, case["cuts"]) + ["close"])
-    sock.budget = 4 * len(data) + 64
+    wire, kw = data, {}
+    if case.get("enc"):
+        # the same bytes as an HTTP chunked body (C12 judges the de-chunking itself; here: the messages are the same)
+        from pv.checks import c12
+
+        step = max(1, case.get("chunk", 64), len(data) // 1500 + 1)
+        wire, _ = c12.encode({"chunks": [data[i : i + step].hex() for i in range(0, len(data), step)], "enc": case["enc"], "hexcase": [0, 1], "terminator": True})
+        kw = {"encoding": c12.ENC[case["enc"]]}
+    sock = ScriptedSocket(streams.split(wire, [c for c in case["cuts"] if 0 < c < len(wire)]) + ["close"])
+    sock.budget = 4 * len(wire) + 64
     try:
-        got = [(raw, pub(p)) for raw, p in RTCMReader(sock, quitonerror=case["qoe"], labelmsm=case["labelmsm"], bufsize=case["bufsize"])]
+        if case.get("prewrap"):
+            # the application wraps the socket itself and hands the (public) wrapper to the reader
+            from pyrtcm.socketwrapper import SocketWrapper
+
+            rdr = RTCMReader(SocketWrapper(sock, bufsize=case["bufsize"], **kw), quitonerror=case["qoe"], labelmsm=case["labelmsm"])
+        else:
+            rdr = RTCMReader(sock, quitonerror=case["qoe"], labelmsm=case["labelmsm"], bufsize=case["bufsize"], **kw)
+        got = [(raw, pub(p)) for raw, p in rdr]
     finally:
         sock.close()
     if [r for r, _ in got] != [r for r, _ in ref]:
         raise Fail("socket-differs-from-file", f"reader over the socket returned {len(got)} frames, over the file {len(ref)} (or different bytes); bufsize {case['bufsize']} cuts {case['cuts'][:10]}")
     if got != ref:
         raise Fail("socket-differs-from-file", "same raw frames but different parsed attributes")
-    cls = [f"bufsize{case['bufsize']}"]
+    cls = [f"bufsize{case['bufsize']}"] + (["chunked-" + case["enc"]] if case.get("enc") else []) + (["socket-wrapped-by-caller"] if case.get("prewrap") else [])
     off = 0
     cut_in_frame = False
     for i in items:
@@ -321,10 +336,99 @@ def o_diff(case):
 def s_diff(draw, tier):
     items = streams.flatten(draw(st.lists(st.one_of(streams.wellformed_items("small", fillers_ok=False), streams.damaged_frames("small")), min_size=1, max_size=10)))
     n = sum(len(i["b"]) // 2 for i in items)
+    extra = {"prewrap": draw(st.integers(0, 3)) == 0}
     if draw(st.integers(0, 3)) == 0:
-        # one item per segment: what a sender that writes message by message produces
-        return {"items": items, "cuts": streams.boundaries(items), "bufsize": draw(st.sampled_from(BUFS)), "qoe": draw(st.sampled_from([0, 1])), "labelmsm": draw(st.sampled_from([1, 2]))}
-    return {"items": items, "cuts": draw(streams.partitions(n)), "bufsize": draw(st.sampled_from(BUFS)), "qoe": draw(st.sampled_from([0, 1])), "labelmsm": draw(st.sampled_from([1, 2]))}
+        extra.update(enc=draw(st.sampled_from(["none", "none", "gzip", "compress", "deflate"])), chunk=draw(st.sampled_from([5, 31, 64, 700])))
+        n = 3 * n + 64
+    mode = draw(st.integers(0, 5))
+    if mode <= 1 and "enc" not in extra:
+        # one item per segment (a sender that writes message by message), or one segment per read request of the reader
+        cuts = streams.boundaries(items) if mode == 0 else streams.structure_cuts(items)
+    else:
+        cuts = draw(streams.partitions(n))
+    return {**extra, "items": items, "cuts": cuts, "bufsize": draw(st.sampled_from(BUFS)), "qoe": draw(st.sampled_from([0, 1])), "labelmsm": draw(st.sampled_from([1, 2]))}
+
+
+# ------------------------------------------------------------------ a stall inside a frame costs at most that frame
+def o_stall(case):
+    """Frames without any sync byte after the preamble (so that a skipped remainder cannot start another item), cut
+    into segments with timeouts / transient errors between some of them; the application keeps polling. A frame that
+    no stall falls strictly inside is delivered, exactly once and in order - whatever happened to earlier frames."""
+    from pyrtcm import RTCMReader
+
+    frames = [streams.inert_frame(bytes.fromhex(h) + bytes([k])) for k, h in enumerate(case["frames"])]  # all distinct
+    gaps = [bytes(b for b in bytes.fromhex(g) if b not in streams.SYNC) for g in case["gaps"]]
+    data = bytearray()
+    spans = []
+    for k, f in enumerate(frames):
+        data += gaps[k % len(gaps)] if gaps else b""
+        spans.append((len(data), len(data) + len(f)))
+        data += f
+    data = bytes(data)
+    cuts = sorted(set(c for c in case["cuts"] if 0 < c < len(data)))
+    if case.get("structure"):
+        cuts = sorted(set(cuts) | set(c for a, b in spans for c in (a, a + 1, a + 2, a + 3, b - 3, b) if 0 < c < len(data)))
+    stalls = [c for k, c in enumerate(cuts) if case["stall"][k % len(case["stall"])]] if case["stall"] else []
+    events = []
+    for sg, c in zip(streams.split(data, cuts), cuts + [None]):
+        events.append(sg)
+        if c in stalls:
+            events.append(["timeout", "oserror:blocking", "timeout"][case["stall"][cuts.index(c) % len(case["stall"])] - 1])
+    sock = ScriptedSocket(events + ["close"])
+    sock.budget = 6 * len(data) + 8 * len(events) + 256
+    got = []
+    try:
+        rdr = RTCMReader(sock, quitonerror=case["qoe"], bufsize=case["bufsize"], parsed=case["parsed"])
+        guard = 0
+        while True:
+            guard += 1
+            if guard > 4 * len(data) + 4 * len(events) + 64:
+                raise Fail("non-termination", f"application polled {guard} times for {len(data)} bytes")
+            raw, _ = rdr.read()
+            if raw is None:
+                if sock.closed_by_peer:
+                    break
+                continue
+            got.append(bytes(raw))
+    finally:
+        sock.close()
+    j = 0
+    delivered = [False] * len(frames)
+    for n, raw in enumerate(got):
+        while j < len(frames) and frames[j] != raw:
+            j += 1
+        if j == len(frames):
+            raise Fail("returned-not-sent-in-order", f"result {n} ({raw.hex()[:40]}..) is not the next frame sent (duplicate, reordered or altered)")
+        delivered[j] = True
+        j += 1
+    hit = [any(a < c < b for c in stalls) for a, b in spans]
+    lost = [k for k in range(len(frames)) if not delivered[k] and not hit[k]]
+    if lost:
+        k = lost[0]
+        raise Fail("frame-lost-without-a-stall-inside-it", f"frame #{k} of {len(frames)} (bytes {spans[k][0]}..{spans[k][1]}) was never returned although no timeout fell inside it; stalls at {stalls[:8]}, {sum(hit)} frame(s) hit by a stall, bufsize {case['bufsize']}")
+    cls = [f"bufsize{case['bufsize']}"]
+    if any(hit):
+        cls.append("stall-inside-a-frame")
+    if any(h and any(not x for x in hit[k + 1 :]) for k, h in enumerate(hit)):
+        cls.append("frames-after-a-stalled-frame")
+    if any(c in stalls for a, b in spans for c in (a + 1, a + 2, a + 3, b - 3)):
+        cls.append("stall-at-a-read-boundary-of-the-reader")
+    return Res(nontrivial="frames-after-a-stalled-frame" in cls, classes=cls, evals=len(frames))
+
+
+@st.composite
+def s_stall(draw, tier):
+    nf = draw(st.integers(2, 8))
+    return {
+        "frames": [draw(st.binary(min_size=2, max_size=4)).hex() for _ in range(nf)],
+        "gaps": [draw(st.binary(min_size=0, max_size=6)).hex() for _ in range(draw(st.integers(1, 3)))],
+        "cuts": draw(streams.partitions(nf * 20)),
+        "structure": draw(st.booleans()),
+        "stall": draw(st.lists(st.sampled_from([0, 0, 0, 1, 2, 3]), min_size=1, max_size=12)),
+        "bufsize": draw(st.sampled_from(BUFS)),
+        "qoe": draw(st.sampled_from([0, 1])),
+        "parsed": draw(st.booleans()),
+    }
 
 
 def _short(c):
@@ -339,7 +443,8 @@ def _short(c):
 
 
 SUBS = [
+    Sub("stall_costs_at_most_that_frame", o_stall, strategy=s_stall, examples=(150, 4000), rule="a frame hit by a stall is followed by frames that are not", need={"stall-inside-a-frame": 1, "frames-after-a-stalled-frame": 1, "stall-at-a-read-boundary-of-the-reader": 1}, sample=_short),
     Sub("wrapper_histories", o_hist, strategy=s_hist, enum=e_long, examples=(600, 8000), rule="refill straddling a read and a timeout with a non-empty buffer in one history", need={"write-between-reads": 1, "refill-straddles-read": 1, "timeout-with-nonempty-buffer": 1, "readline-complete": 1, "readline-cut-by-event": 1, "eof-during-read": 1}, sample=_short),
     Sub("wrapper_state_machine", o_hist, enum=e_machine, rule="RuleBasedStateMachine runs over the same operations; evaluations = rule steps executed; failing histories are re-judged by the op-list oracle", sample=_short),
-    Sub("reader_socket_equals_file", o_diff, strategy=s_diff, examples=(120, 3000), rule=">= 2 frames and a cut inside a frame", need={"cut-inside-frame": 1}, sample=_short),
+    Sub("reader_socket_equals_file", o_diff, strategy=s_diff, examples=(120, 3000), rule=">= 2 frames and a cut inside a frame", need={"cut-inside-frame": 1, "chunked-gzip": 1, "chunked-none": 1, "socket-wrapped-by-caller": 1}, sample=_short),
 ]
